@@ -258,7 +258,7 @@ def true_extent(d):
 
 class Check(PropertyCheck):
     id = 'C03'
-    lean_targets = ['RegionsVerif.Props.C03']
+    lean_targets = ['RegionsVerif.Props.C03', 'RegionsVerif.Props.C03Area']
     namespaces = ['RegionsVerif.Props.C03']
     rule = ('circles and ellipses with radii / semi-axes 1e-3..1e3 pixels, axis ratios to 1:100, all angles, generic and half-integer '
             'centres; whole to_mask(exact) grids with up to ~56 sampled pixels each (boundary, interior, exterior) and single pixels; '
@@ -269,9 +269,10 @@ class Check(PropertyCheck):
                    'the property\'s convergence clause "error bounded by the boundary length crossing the pixel over n" is read with the explicit '
                    'constant of the standard cell-counting argument: |sub_n - true| <= 4 L / n + 4 m / n^2 (m = number of boundary pieces in the pixel)',
                    'Cython is not installed: the compiled .so is what runs']
-    validated_only = ['mask value = area of (shape ∩ pixel) within 1e-8 for partially covered pixels (circle: arc+triangle branches of circular_overlap_core; '
-                      'ellipse: the whole triangle/unit-circle routine)', 'values in [0,1] for partially covered pixels', 'mask sum = analytic area',
-                      'sub-pixel convergence bound']
+    validated_only = ['circle: the area identity, the range [0,1] and the sum = pi r^2 are THEOREMS about the real-number instance of the kernel model '
+                      '(Props/C03Area); what stays validated is that the IEEE-double evaluation of the same text is within 1e-8 of the real value',
+                      'ellipse: mask value = area of (shape ∩ pixel) within 1e-8 for partially covered pixels (the whole triangle/unit-circle routine), '
+                      'values in [0,1], mask sum = analytic area', 'sub-pixel convergence bound']
 
     def translate(self):
         import subprocess, sys, os
